@@ -91,7 +91,7 @@ func runC11(p *Program, r *Report) {
 	c11gate(p, r, "C11.gate")
 	c11key(p, r, "C11.key")
 	c11sub(p, r, "C11.sub")
-	cSingleValued(p, r, "C11.single", []string{"verifyClientRequest"}, []string{"Sec-WebSocket-Version"})
+	cSingleValued(p, r, "C11.single", "Accept: request verification", []string{"verifyClientRequest"}, []string{"Sec-WebSocket-Version"})
 	cAsciiTokens(p, r, "C11.ascii", []string{"verifyClientRequest", "headerTokens", "headerContainsTokenIgnoreCase", "selectSubprotocol"})
 	cTokens(p, r, "C11.tokens")
 }
@@ -656,7 +656,7 @@ func c13req(p *Program, r *Report, rule string) {
 
 func runC13(p *Program, r *Report) {
 	c13req(p, r, "C13.req")
-	cSingleValued(p, r, "C13.single", []string{"verifyServerResponse", "verifySubprotocol"}, []string{"Sec-WebSocket-Accept", "Sec-WebSocket-Protocol"})
+	cSingleValued(p, r, "C13.single", "Dial: response verification", []string{"verifyServerResponse", "verifySubprotocol"}, []string{"Sec-WebSocket-Accept", "Sec-WebSocket-Protocol"})
 	if fn := p.Func("secWebSocketKey"); fn != nil {
 		p.forAllPaths(r, "C13.key", fn, "16 random bytes, base64", Opts{},
 			"secWebSocketKey reads exactly 16 bytes with io.ReadFull from the injected reader or crypto/rand.Reader and returns their StdEncoding base64; a read error yields no key", func(pa *Path) (bool, string) {
